@@ -22,14 +22,14 @@ const prop = "C16"
 
 // spec is a serialisable description of a Go value (so that cases replay).
 type spec struct {
-	K    string           `json:"k"` // nil int int8 int16 int32 int64 uint uint8 uint16 uint32 uint64 float32 float64 string bool slice array map struct ptr bytes
-	I    int64            `json:"i,omitempty"`
-	F    float64          `json:"f,omitempty"`
-	S    string           `json:"s,omitempty"`
-	B    bool             `json:"b,omitempty"`
-	Kids []*spec          `json:"kids,omitempty"`
-	Keys []string         `json:"keys,omitempty"`
-	Nil  bool             `json:"nil,omitempty"` // ptr: nil pointer; slice/map: nil slice/map
+	K    string   `json:"k"` // nil int int8 int16 int32 int64 uint uint8 uint16 uint32 uint64 float32 float64 string bool slice array map struct ptr bytes
+	I    int64    `json:"i,omitempty"`
+	F    float64  `json:"f,omitempty"`
+	S    string   `json:"s,omitempty"`
+	B    bool     `json:"b,omitempty"`
+	Kids []*spec  `json:"kids,omitempty"`
+	Keys []string `json:"keys,omitempty"`
+	Nil  bool     `json:"nil,omitempty"` // ptr: nil pointer; slice/map: nil slice/map
 }
 
 type tagged struct {
@@ -508,7 +508,9 @@ func runEngine(c ecase) (sym, det, inconcl string) {
 	defer in.Close()
 	// a second instance, alive at the same time, with its own variables
 	ov := c.Other.build()
-	if p := guard(func() { in2, err = drive.New(x, drive.Options{Vars: map[string]any{"other": ov, "v": "instance-2"}, Tracker: in.Tr}) }); p != "" {
+	if p := guard(func() {
+		in2, err = drive.New(x, drive.Options{Vars: map[string]any{"other": ov, "v": "instance-2"}, Tracker: in.Tr})
+	}); p != "" {
 		return "panic", fmt.Sprintf("creating the second instance panicked: %s", p), ""
 	}
 	if err != nil {
